@@ -25,6 +25,7 @@ class RecBase {
   void* Malloc(size_t n) {
     if (!n) return nullptr;
     void* p = std::malloc(n);
+    if (!p) return nullptr;
     chunk_log().live[(uintptr_t)p] = n;
     chunk_log().mallocs++;
     return p;
@@ -51,7 +52,8 @@ class RecBase {
 static vf::Counter c_hist("histories"), c_ops("operations-checked"), c_malloc("op:Malloc"), c_realloc_inplace("op:Realloc-in-place"), c_realloc_moved("op:Realloc-moved"),
     c_realloc_shrink("op:Realloc-shrink-or-same"), c_clear("op:Clear"), c_copy("op:copy-handle"), c_move("op:move-handle"), c_destroy("op:destroy-handle"), c_zero("op:zero-size-request"),
     c_userbuf("pool:user-buffer"), c_userbuf_mis("pool:user-buffer-misaligned"), c_adaptive("pool:adaptive-policy"), c_simple("pool:simple-policy"), c_newchunk("event:new-chunk"),
-    c_verify("content-reverifications"), c_big("op:request-larger-than-chunk"), c_docs("documents-parsed-on-small-chunk-pools"), c_default_base("pool:default-constructed-base-allocator");
+    c_verify("content-reverifications"), c_big("op:request-larger-than-chunk"), c_docs("documents-parsed-on-small-chunk-pools"), c_default_base("pool:default-constructed-base-allocator"),
+    c_unsat("op:request-that-cannot-be-satisfied(near SIZE_MAX)");
 
 static const size_t kHdr = 24;  // SONIC_ALIGN(sizeof(ChunkHeader)): capacity, size, next
 
@@ -508,6 +510,52 @@ int main(int argc, char** argv) {
                      vf::count("huge-requests-granted");
                    } else vf::count("huge-requests-refused");
                    vf::distinct_enum(1);
+                 }
+                 for (auto& kv : chunk_log().live) std::free((void*)kv.first);
+                 chunk_log() = ChunkLog();
+               }, false});
+  // requests that no allocator can satisfy (within 64 bytes of SIZE_MAX, and around SIZE_MAX/2): the answer must be
+  // null, the pool must stay usable and its accounting unchanged; size arithmetic must not wrap around
+  S.push_back({"requests_that_cannot_be_satisfied", 200, 2000, [](uint64_t i, vf::Rng& r) {
+                 using Pool = MemoryPoolAllocator<RecBase, SimpleChunkPolicy>;
+                 chunk_log() = ChunkLog();
+                 {
+                   RecBase base;
+                   PoolHist<Pool> h(r, "simple-policy(unsatisfiable)");
+                   h.handles.emplace_back(new Pool(r.coin() ? 65536 : 1024, &base));
+                   vf::eval();
+                   c_unsat.add();
+                   size_t warm = i % 4;  // blocks handed out before the absurd request
+                   for (size_t k = 0; k < warm; k++) {
+                     size_t n = r.range(1, 200);
+                     void* p = h.any().Malloc(n);
+                     if (p && h.check_new_block(p, n, "Malloc")) { Block b{(uintptr_t)p, n, (n + 7) & ~(size_t)7, ++h.serial}; h.fill(b); h.blocks[b.p] = b; h.consumed += b.asize; }
+                   }
+                   size_t n = (i / 4) % 3 == 2 ? (SIZE_MAX / 2) + 1 + r.below(64) : SIZE_MAX - ((i / 12) % 80);
+                   size_t size_before = h.any().Size(), cap_before = h.any().Capacity();
+                   bool via_realloc = (i / 4) % 3 == 1 && !h.blocks.empty();
+                   void* p;
+                   if (via_realloc) {
+                     Block& last = h.blocks.rbegin()->second;
+                     h.log("Realloc(block," + std::to_string(last.size) + ",SIZE_MAX-" + std::to_string(SIZE_MAX - n) + ")");
+                     p = h.any().Realloc((void*)last.p, last.size, n);
+                     if (p == (void*)last.p) h.fail("Realloc-unsatisfiable-returned-the-old-block", "Realloc to " + std::to_string(n) + " bytes returned the unchanged block as if it had grown");
+                   } else {
+                     h.log("Malloc(SIZE_MAX-" + std::to_string(SIZE_MAX - n) + ")");
+                     p = h.any().Malloc(n);
+                   }
+                   if (p && !h.failed) h.fail("unsatisfiable-request-granted", "request of " + std::to_string(n) + " bytes returned a non-null block");
+                   if (!h.failed && (h.any().Size() != size_before || h.any().Capacity() != cap_before))
+                     h.fail("accounting-changed-by-refused-request", "Size " + std::to_string(size_before) + " -> " + std::to_string(h.any().Size()) + ", Capacity " + std::to_string(cap_before) + " -> " + std::to_string(h.any().Capacity()));
+                   // the pool must still serve, disjoint from everything live
+                   for (int k = 0; k < 3 && !h.failed; k++) {
+                     size_t m = r.range(1, 300);
+                     void* q = h.any().Malloc(m);
+                     if (!q) { h.fail("pool-unusable-after-refused-request", "Malloc(" + std::to_string(m) + ") returned null"); break; }
+                     if (h.check_new_block(q, m, "Malloc-after-refusal")) { Block b{(uintptr_t)q, m, (m + 7) & ~(size_t)7, ++h.serial}; h.fill(b); h.blocks[b.p] = b; h.consumed += b.asize; }
+                   }
+                   if (!h.failed) h.verify_all("after-refused-request");
+                   vf::distinct(vf::hash_combine(n, warm * 2 + via_realloc));
                  }
                  for (auto& kv : chunk_log().live) std::free((void*)kv.first);
                  chunk_log() = ChunkLog();
